@@ -76,9 +76,23 @@ def gen_coqproject():
                        stdout=subprocess.DEVNULL, stderr=subprocess.DEVNULL)
 
 
+def gen_unicode_tables():
+    """coq/Model/UnicodeTables.v (ranges of unicode.IsLetter / IsDigit) is generated from the Go
+    toolchain that compiles knut; a committed copy exists, it is regenerated only when missing"""
+    p = os.path.join(COQ, "Model", "UnicodeTables.v")
+    if os.path.exists(p):
+        return
+    r = subprocess.run(["go", "run", os.path.join(VERIF, "lib", "gen_unicode_tables.go")], env=GOENV,
+                       stdout=subprocess.PIPE, stderr=subprocess.PIPE, text=True, timeout=300)
+    if r.returncode != 0:
+        raise RuntimeError("gen_unicode_tables.go failed: " + r.stderr[-1000:])
+    open(p, "w").write(r.stdout)
+
+
 def coq_build(timeout=3000):
     """full .vo build; returns (ok, failing_file or None, tail of the log)"""
     with Lock("coq"):
+        gen_unicode_tables()
         gen_coqproject()
         t0 = time.time()
         p = subprocess.run(["make", "-j16", "-k"], cwd=COQ, stdout=subprocess.PIPE, stderr=subprocess.STDOUT,
